@@ -413,7 +413,7 @@ func checkC17(p *Prog, res *Result, tier string) {
 			for _, c := range callsIn(g) {
 				for _, callee := range p.calleesOf(c) {
 					cu := unwrapSynthetic(callee)
-					if cu == r.Sink || cu == w.fanout || cu == w.hubLoop || cu == w.register || cu == w.cacheAdd {
+					if r.inSinkChain(cu) || cu == w.fanout || cu == w.hubLoop || cu == w.register || cu == w.cacheAdd {
 						hit = path + " -> " + funcName(cu)
 						return
 					}
@@ -507,6 +507,24 @@ func checkC17(p *Prog, res *Result, tier string) {
 				return out
 			case *ssa.Convert:
 				return roots(x.X, d+1, seen)
+			case *ssa.UnOp, *ssa.Field:
+				// a field of a request struct of the repository: whatever is stored into that field anywhere
+				var fv *types.Var
+				if u, ok := x.(*ssa.UnOp); ok && u.Op == token.MUL {
+					if fa, ok := u.X.(*ssa.FieldAddr); ok {
+						fv = fieldOf(fa)
+					}
+				}
+				if fx, ok := x.(*ssa.Field); ok {
+					fv = fieldOfField(fx)
+				}
+				if fv != nil && fv.Pkg() != nil && strings.HasPrefix(fv.Pkg().Path(), modPath) && len(p.fields().stores[fv]) > 0 {
+					var out []ssa.Value
+					for _, st := range p.fields().stores[fv] {
+						out = append(out, roots(st.Val, d+1, seen)...)
+					}
+					return out
+				}
 			}
 			return []ssa.Value{v}
 		}
@@ -608,6 +626,17 @@ func allCellValuesOpt(p *Prog, v ssa.Value, followFields bool) []ssa.Value {
 			if cell != nil {
 				for _, st := range storesIntoCell(cell, 0) {
 					rec(st.Val, d+1)
+				}
+				// a struct variable that is (also) filled field by field: the load itself stands for that value
+				for _, ref := range *cell.Referrers() {
+					if fa, ok := ref.(*ssa.FieldAddr); ok {
+						for _, r2 := range *fa.Referrers() {
+							if st, ok := r2.(*ssa.Store); ok && st.Addr == ssa.Value(fa) {
+								out = append(out, v)
+								return
+							}
+						}
+					}
 				}
 				return
 			}
